@@ -8,6 +8,7 @@ package main
 import (
 	"bytes"
 	"fmt"
+	"sort"
 	"strings"
 
 	"golang.org/x/net/html"
@@ -156,6 +157,9 @@ func curieRefOK(iri, f string) bool {
 }
 
 func anyField(iri, value string) bool {
+	if strings.Contains(iri, "[") {
+		return true // the decoder's internal `[…]` wrapping of rel/rev values leaked (a namespace with layout in it): not a position matter
+	}
 	for _, f := range strings.Fields(value) {
 		if curieRefOK(iri, f) {
 			return true
@@ -238,7 +242,7 @@ func htmlSlice(sc sliceCtx) (sub, msg string) {
 					if len(w) >= 2 && w[0] == '[' && w[len(w)-1] == ']' {
 						w = w[1 : len(w)-1]
 					}
-					if w != "_:"+label {
+					if strings.TrimSpace(w) != "_:"+strings.TrimSpace(label) {
 						return "content-mismatch", fmt.Sprintf("%s=%s, term is blank node %q", key, quoteClip(val), label)
 					}
 					return "", ""
@@ -316,6 +320,10 @@ func htmlSlice(sc sliceCtx) (sub, msg string) {
 				return "", ""
 			}
 			text, bal := htmlContentText(toks, loc.fromTok, loc.endTok)
+			// html / head / body start tags may be merged into elements the tree builder already made
+			if n := loc.tag.name; n == "html" || n == "head" || n == "body" {
+				return "", ""
+			}
 			if bal && htmlBalanced(toks) && text != lit.LexicalForm {
 				return "content-mismatch", fmt.Sprintf("content text is %s, lexical form is %s", quoteClip(text), quoteClip(lit.LexicalForm))
 			}
@@ -421,27 +429,31 @@ func htmlMissing(c cfg, res *result, i, slot int) string {
 // wholeDocTraits: properties of a document of the HTML family (and RDF/XML) that are known root causes
 // of position errors in the third-party tokenizer wrappers; comma-separated, "" when none. Offered to
 // common.go as a sub-key for the generic classes (range-linecol, range-outside, capture-changes-*).
-//   unquoted-attr   a start tag has an unquoted attribute value followed by more than `>` (inspecthtml
-//                   measures it one byte short or across the next attribute: H4)
-//   unquoted-slash-end  the last attribute value of a tag is unquoted and ends in `/` (inspecthtml takes
-//                   the `/>` for a self-closing marker and drops the `/` from the value: H8)
-//   attr-slash      a start tag has `/` directly before an attribute name or inside one (H3)
-//   script-cr       a script element's text contains a carriage return or a NUL (x/net/html rewrites them
-//                   — CR LF and CR to LF, NUL to U+FFFD — before the embedded JSON-LD decoder counts
-//                   positions: H1)
-//   attr-soup       an attribute name contains a quote, `<` or `=` (tag soup: the regular expressions of
-//                   inspecthtml and the tokenizer disagree on where attributes are)
-//   attr-nospace    an attribute name follows a quoted value without layout (inspecthtml looks for
-//                   `\s+name` and attributes the next attribute's position instead: H7)
-//   json-comment    combined decoder (lax JSON): a script's text has a `//` or `/* */` comment outside
-//                   strings (inspectjson skips it without counting its bytes: J2)
-//   unclosed-formatting  a formatting element (a, b, i, s, …) is not closed where it was opened: the tree
-//                   builder reconstructs it as clones that share the original's `o` marker, so their
-//                   statements carry the original's ranges (H9)
-//   short-comment   a comment token shorter than `<!---->` (bogus comments `<!x>`, `<?x>`, `</1>`, or an
-//                   unterminated `<!--` at the end): inspecthtml slices the raw comment [4:len-3] (H2)
-//   xml-attr        RDF/XML: an attribute inspectxml cannot locate (single quotes, empty value, layout
-//                   around `=`: X2/X5)
+//
+//	unquoted-attr   a start tag has an unquoted attribute value followed by more than `>` (inspecthtml
+//	                measures it one byte short or across the next attribute: H4)
+//	unquoted-slash-end  the last attribute value of a tag is unquoted and ends in `/` (inspecthtml takes
+//	                the `/>` for a self-closing marker and drops the `/` from the value: H8)
+//	attr-slash      a start tag has `/` directly before an attribute name or inside one (H3)
+//	script-cr       a script element's text contains a carriage return or a NUL (x/net/html rewrites them
+//	                — CR LF and CR to LF, NUL to U+FFFD — before the embedded JSON-LD decoder counts
+//	                positions: H1)
+//	dup-attr        a body / html start tag repeats an attribute name (the tree builder merges such tags
+//	                into the existing element and skips attributes already present: attribute indexes
+//	                no longer match the recorded ones)
+//	attr-soup       an attribute name contains a quote, `<` or `=` (tag soup: the regular expressions of
+//	                inspecthtml and the tokenizer disagree on where attributes are)
+//	attr-nospace    an attribute name follows a quoted value without layout (inspecthtml looks for
+//	                `\s+name` and attributes the next attribute's position instead: H7)
+//	json-comment    combined decoder (lax JSON): a script's text has a `//` or `/* */` comment outside
+//	                strings (inspectjson skips it without counting its bytes: J2)
+//	unclosed-formatting  a formatting element (a, b, i, s, …) is not closed where it was opened: the tree
+//	                builder reconstructs it as clones that share the original's `o` marker, so their
+//	                statements carry the original's ranges (H9)
+//	short-comment   a comment token shorter than `<!---->` (bogus comments `<!x>`, `<?x>`, `</1>`, or an
+//	                unterminated `<!--` at the end): inspecthtml slices the raw comment [4:len-3] (H2)
+//	xml-attr        RDF/XML: an attribute inspectxml cannot locate (single quotes, empty value, layout
+//	                around `=`: X2/X5)
 func wholeDocTraits(format string, doc []byte) string {
 	var tr []string
 	add := func(t string) {
@@ -477,7 +489,12 @@ func wholeDocTraits(format string, doc []byte) string {
 		}
 		switch t.kind {
 		case 'S':
+			seenKey := map[string]bool{}
 			for ai, a := range t.attrs {
+				if seenKey[a.key] && (t.name == "body" || t.name == "html") {
+					add("dup-attr")
+				}
+				seenKey[a.key] = true
 				if a.ve > a.vs && !a.quoted && !(ai == len(t.attrs)-1 && (a.ve == t.e-1)) {
 					add("unquoted-attr")
 				}
@@ -531,6 +548,7 @@ func wholeDocTraits(format string, doc []byte) string {
 			add("unclosed-formatting")
 		}
 	}
+	sort.Strings(tr)
 	return strings.Join(tr, ",")
 }
 
